@@ -13,6 +13,7 @@ import (
 	"time"
 
 	"github.com/massnetorg/mass-core/massutil"
+	"github.com/massnetorg/mass-core/wire"
 	"massnet.org/mass-wallet/masswallet"
 	mwdb "massnet.org/mass-wallet/masswallet/db"
 	"massnet.org/mass-wallet/masswallet/keystore"
@@ -36,8 +37,10 @@ func genHistory(t *rapid.T, withRemoval bool) *World {
 	if rapid.IntRange(0, 1).Draw(t, "withKeystoreImport") == 0 {
 		w.importFromKeystore(t)
 	}
-	removals, lateImports := 0, 0
+	removals, lateImports, bursts := 0, 0, 0
 	var importing []*mwallet // accepted imports whose background scan has not been waited for
+	var unconf []*wire.MsgTx // unconfirmed transactions handed to the wallet so far
+	var removing, removedDone []*mwallet
 	settle := func() {
 		// wait for background work; wallets whose import finished join the model. A rescan that meets a
 		// reorganisation the handler has not processed yet waits for it, so queued notifications are
@@ -63,10 +66,85 @@ func genHistory(t *rapid.T, withRemoval bool) *World {
 			w.wallets = append(w.wallets, m)
 		}
 		importing = nil
+		removedDone = append(removedDone, removing...)
+		removing = nil
 	}
 	n := rapid.IntRange(6, 22).Draw(t, "historyLen")
 	for i := 0; i < n; i++ {
-		switch rapid.SampledFrom([]string{"newAddress", "mine", "mine", "mine", "reorg", "deliver", "deliver", "deliver", "remove", "lateImport", "serve", "settle"}).Draw(t, "hact") {
+		switch rapid.SampledFrom([]string{"newAddress", "mine", "mine", "mine", "reorg", "deliver", "deliver", "deliver", "remove", "lateImport", "serve", "settle", "mempoolTx", "mempoolTx", "redeliverTx", "importBurst", "reimport"}).Draw(t, "hact") {
+		case "mempoolTx":
+			// an unconfirmed transaction reaches the wallet (it may later confirm, be double-spent by a
+			// block, or stay pending)
+			if len(w.wallets) == 0 || len(unconf) >= 4 {
+				continue
+			}
+			tx := w.genTx(t, w.chainView(t), w.node.Height()+1, func(c *Coin) bool { return w.ownedByAny(c) })
+			if tx == nil {
+				continue
+			}
+			w.record(hstep{Kind: "tx", Tx: tx})
+			err := w.env.H.VerifProcessTx(tx)
+			unconf = append(unconf, tx)
+			w.flag("pending-tx-in-history")
+			h := tx.TxHash()
+			w.logf("unconfirmed tx %s -> %v", h.String()[:10], err)
+		case "redeliverTx":
+			if len(unconf) == 0 {
+				continue
+			}
+			tx := unconf[rapid.IntRange(0, len(unconf)-1).Draw(t, "redeliver")]
+			w.record(hstep{Kind: "tx", Tx: tx})
+			err := w.env.H.VerifProcessTx(tx)
+			h := tx.TxHash()
+			w.logf("unconfirmed tx %s delivered again -> %v", h.String()[:10], err)
+		case "importBurst":
+			// several imports back to back (the service may refuse some: too many tasks)
+			if bursts >= 1 || rapid.IntRange(0, 1).Draw(t, "doBurst") != 0 {
+				continue
+			}
+			bursts++
+			for k := 0; k < 5; k++ {
+				ent := rapid.SliceOfN(rapid.Byte(), 16, 16).Draw(t, "burstEntropy")
+				keys, _ := sim.EntropyFor(ent, "pass8Xburst")
+				if keys == nil {
+					continue
+				}
+				dup := false
+				for _, o := range w.wallets {
+					dup = dup || o.id == keys.ID
+				}
+				for _, o := range importing {
+					dup = dup || o.id == keys.ID
+				}
+				if dup {
+					continue
+				}
+				ws, err := w.env.W.ImportWalletWithMnemonic(&keystore.WalletParams{Mnemonic: keys.Mnemonic, PrivatePassphrase: []byte(keys.Pass), Remarks: "burst", AddressGapLimit: 20})
+				if err != nil {
+					w.logf("import in a burst refused: %v", err)
+					continue
+				}
+				// recorded after the fact: only accepted requests are part of the script
+				w.script = append(w.script, hstep{Kind: "import", Keys: keys})
+				importing = append(importing, &mwallet{keys: keys, id: ws.WalletID, owns: map[[32]byte]bool{}})
+				w.logf("import wallet %s requested (burst)", ws.WalletID[:10])
+			}
+			w.flag("import-burst")
+		case "reimport":
+			// a wallet whose removal is complete is imported again from its mnemonic
+			if len(removedDone) == 0 || w.taskPending(t) {
+				continue
+			}
+			m := removedDone[0]
+			removedDone = removedDone[1:]
+			w.record(hstep{Kind: "import", Keys: m.keys})
+			ws, err := w.env.W.ImportWalletWithMnemonic(&keystore.WalletParams{Mnemonic: m.keys.Mnemonic, PrivatePassphrase: []byte(m.keys.Pass), Remarks: "again", AddressGapLimit: 20})
+			if err != nil {
+				t.Fatalf("importing a removed wallet again: %v", err)
+			}
+			importing = append(importing, &mwallet{keys: m.keys, id: ws.WalletID, owns: map[[32]byte]bool{}})
+			w.flag("reimport-after-removal")
+			w.logf("wallet %s imported again", ws.WalletID[:10])
 		case "newAddress":
 			if len(w.wallets) == 0 {
 				continue
@@ -101,9 +179,14 @@ func genHistory(t *rapid.T, withRemoval bool) *World {
 				}
 				w.record(hstep{Kind: "remove", Wallet: m.id, Pass: m.keys.Pass})
 				if err := w.env.W.RemoveWallet(m.id, m.keys.Pass); err != nil {
+					if err == masswallet.ErrTooManyTask {
+						w.script = w.script[:len(w.script)-1]
+						continue
+					}
 					t.Fatalf("RemoveWallet: %v", err)
 				}
 				removals++
+				removing = append(removing, m)
 				w.wallets = w.wallets[:len(w.wallets)-1]
 				w.flag("removal-in-history")
 				if removals == 2 || len(importing) > 0 {
@@ -129,6 +212,10 @@ func genHistory(t *rapid.T, withRemoval bool) *World {
 			}
 			w.record(hstep{Kind: "import", Keys: keys})
 			ws, err := w.env.W.ImportWalletWithMnemonic(&keystore.WalletParams{Mnemonic: keys.Mnemonic, PrivatePassphrase: []byte(keys.Pass), Remarks: "late", AddressGapLimit: 20})
+			if err == masswallet.ErrTooManyTask {
+				w.script = w.script[:len(w.script)-1]
+				continue
+			}
 			if err != nil {
 				t.Fatalf("ImportWalletWithMnemonic: %v", err)
 			}
@@ -156,7 +243,9 @@ func genHistory(t *rapid.T, withRemoval bool) *World {
 	}
 	w.deliverAll(t)
 	w.finishTasks(t)
-	w.auditLedger(t)
+	if len(unconf) == 0 {
+		w.auditLedger(t) // (with unconfirmed transactions around, the spendable figures depend on the pending set: C09's topic)
+	}
 	return w
 }
 
@@ -252,6 +341,55 @@ func observe(t *rapid.T, env *sim.Env) []string {
 			out = append(out, fmt.Sprintf("  %s addr %s class=%d used=%v", s.WalletID[:8], a.Address, a.AddressClass, a.Used))
 		}
 	}
+	out = append(out, pendingStore(t, env)...)
+	return out
+}
+
+// comparable prepares an observation for the twin comparison. Which unconfirmed transactions a wallet
+// holds is not a function of the final chain and the user's operations: it depends on which orphaned
+// blocks the wallet happened to process before they were replaced (a wallet that was down, or whose
+// block processing failed, never saw them) and on how far it was synced when an unconfirmed
+// transaction arrived (a transaction spending a coin the wallet does not know yet is not relevant to
+// it). Histories contain unconfirmed transactions so that their processing is crashed / faulted like
+// everything else, but the pending set itself is left out of the comparison (C09 decides it).
+func comparable(obs []string, script []hstep) []string {
+	var out []string
+	for _, l := range obs {
+		if strings.HasPrefix(l, "pending ") {
+			continue
+		}
+		if i := strings.Index(l, " spentByPending="); i >= 0 {
+			l = l[:i]
+		}
+		out = append(out, l)
+	}
+	return out
+}
+
+// pendingStore lists the hashes of the transactions in the wallet's pending store.
+func pendingStore(t *rapid.T, env *sim.Env) []string {
+	var out []string
+	err := mwdb.View(env.DB, func(rtx mwdb.ReadTransaction) error {
+		b := rtx.TopLevelBucket("t")
+		if b != nil {
+			b = b.Bucket("m")
+		}
+		if b == nil {
+			return nil
+		}
+		es, err := b.GetByPrefix(nil)
+		if err != nil {
+			return err
+		}
+		for _, e := range es {
+			out = append(out, fmt.Sprintf("pending %x", e.Key))
+		}
+		return nil
+	})
+	if err != nil {
+		t.Fatalf("reading the pending store: %v", err)
+	}
+	sort.Strings(out)
 	return out
 }
 
@@ -391,7 +529,14 @@ func (r *replayer) stepInner(t *rapid.T, s hstep) {
 		}
 	case "import":
 		for try := 0; ; try++ {
-			if listed, _, _ := r.walletListed(t, s.Keys.ID); listed {
+			listed, _, removing := r.walletListed(t, s.Keys.ID)
+			if listed && removing && !r.ctl.Frozen() {
+				// the wallet is imported AGAIN after its removal; here the removal is still running (it
+				// was delayed by the fault): the user waits for it
+				r.finishTasks(t)
+				listed, _, _ = r.walletListed(t, s.Keys.ID)
+			}
+			if listed {
 				break
 			}
 			_, err := r.env.W.ImportWalletWithMnemonic(&keystore.WalletParams{Mnemonic: s.Keys.Mnemonic, PrivatePassphrase: []byte(s.Keys.Pass), Remarks: "w", AddressGapLimit: 20})
@@ -401,10 +546,28 @@ func (r *replayer) stepInner(t *rapid.T, s hstep) {
 			if r.ctl.Frozen() {
 				return // the process is dying (C06): nothing more happens in it
 			}
+			if err == masswallet.ErrTooManyTask {
+				// the queue is fuller than in the recording run (a failed step was put back): the user
+				// waits for background work and asks again
+				r.finishTasks(t)
+				continue
+			}
 			r.log = append(r.log, fmt.Sprintf("import -> %v", err))
 			if try >= 4 {
 				t.Fatalf("importing the wallet keeps failing after the storage fault is gone: %v\n  %s", err, strings.Join(r.log, "\n  "))
 			}
+		}
+	case "tx":
+		for try := 0; try < 4; try++ {
+			err := r.env.H.VerifProcessTx(s.Tx)
+			if err == nil {
+				break
+			}
+			r.log = append(r.log, fmt.Sprintf("unconfirmed tx -> %v", err))
+			if !strings.Contains(err.Error(), "injected") {
+				break // refused for a reason of its own (conflict, unknown parent, duplicate): same as in the twin
+			}
+			// a storage failure: the transaction is announced again (peers do that)
 		}
 	case "importJSON":
 		for try := 0; ; try++ {
@@ -547,7 +710,7 @@ var c18Kinds = map[string]bool{"begin": true, "beginread": true, "get": true, "g
 func propC18(t *rapid.T) {
 	twin := genHistory(t, true)
 	script := twin.script
-	want := observe(t, twin.env)
+	want := comparable(observe(t, twin.env), twin.script)
 	histKey := hkey(strings.Join(twin.journal, "\n"))
 	twin.close()
 	// fault-free replay: fixes the numbering of database calls that the faulted replays will see, and
@@ -578,7 +741,7 @@ func propC18(t *rapid.T) {
 			r.converge(t)
 			total = ctl.Calls() - base
 			trace = append([]string(nil), ctl.Trace...)
-			got = observe(t, r.env)
+			got = comparable(observe(t, r.env), script)
 		}()
 		if strings.Join(got, "\n") != strings.Join(want, "\n") {
 			t.Fatalf("HARNESS: fault-free replay of the recorded script differs from the recording run\n%s  history:\n  %s", diffObs(want, got), twin.journalTail(30))
@@ -664,7 +827,7 @@ func propC18(t *rapid.T) {
 			}
 			ctl.FailAt = 0
 			r.converge(t)
-			got := observe(t, r.env)
+			got := comparable(observe(t, r.env), script)
 			if strings.Join(got, "\n") != strings.Join(want, "\n") {
 				t.Fatalf("storage fault at database call %d of %d (kinds failed: %v, repeat %d): final state differs from the fault-free run\n%s  failed calls came from:\n    %s\n  faulted run log:\n    %s\n  history:\n  %s",
 					k, total, ctl.Injected, repeat, diffObs(want, got), strings.Join(ctl.Stacks, "\n    "), strings.Join(r.log, "\n    "), twin.journalTail(30))
